@@ -49,3 +49,11 @@ by apply/mapP; exists q; rewrite ?mem_iota //= nth_mkseq.
 Qed.
 
 End Switch.
+
+(* the stopping rule (lines 302-306) never fires before the requested number of Lanczos steps is complete: for
+   n_tridiag > 0 and k < min(n_tridiag_iter, max_iter - 1) the break is impossible whatever the residuals and the tolerance.
+   Any arithmetic. *)
+Lemma stop_waits (T : Type) (Ar : Arith T) (C : nat) (tolerance : T) (n_tridiag max_iter nti k : nat) (s : cg_num T) :
+  (0 < n_tridiag)%N -> (k < minn nti max_iter.-1)%N ->
+  stop_rule Ar C tolerance n_tridiag max_iter nti k s = false.
+Proof. by move=> Hn Hk; rewrite /stop_rule Hn Hk /= !andbF. Qed.
